@@ -22,11 +22,17 @@ theorem KeptB.charge {fl : Bool} {a x c : IState} (h1 : KeptB fl a x) (h2 : Kept
 theorem KeptB.rebase {fl : Bool} {a x c : IState} (h1 : Kept a x) (h2 : KeptB fl x c) : KeptB fl a c :=
   ⟨h1.trans h2.toKept, fun h => by have := h2.strict h; have := h1.rem; omega⟩
 
+/-- a result a frame may end with: not one of the four internal flags on which `output` (`SuccessOrHalt::from`) panics -/
+def RGood (r : IResult) : Prop :=
+  r ≠ .Continue ∧ r ≠ .CallOrCreate ∧ r ≠ .FatalExternalError ∧ r ≠ .InvalidExtDelegateCallTarget
+
+instance (r : IResult) : Decidable (RGood r) := by unfold RGood; exact inferInstance
+
 /-- a handler result whose state (ok or halt) is `Kept` after `s0`, with the flag on an ok result; `Q` holds of an ok
-result -/
+result; a halt carries a result that is not an internal flag -/
 inductive SKeep (fl : Bool) (s0 : IState) {α} (Q : α → IState → Prop) : Exec α → Prop
   | ok {a s} (h : KeptB fl s0 s) (hq : Q a s) : SKeep fl s0 Q (.ok a s)
-  | halt {r o s} {fl' : Bool} (h : KeptB fl' s0 s) : SKeep fl s0 Q (.halt r o s)
+  | halt {r o s} {fl' : Bool} (h : KeptB fl' s0 s) (hr : RGood r) : SKeep fl s0 Q (.halt r o s)
   | fault {f} : SKeep fl s0 Q (.fault f)
 
 theorem sk_bind {fl fl' : Bool} {s0 s : IState} {α β} {m : M α} {f : α → M β} {Q : α → IState → Prop}
@@ -36,7 +42,7 @@ theorem sk_bind {fl fl' : Bool} {s0 s : IState} {α β} {m : M α} {f : α → M
   unfold M.bind
   cases hm : m s with
   | ok a s' => rw [hm] at h1; cases h1 with | ok h hq => exact h2 a s' h hq
-  | halt r o s' => rw [hm] at h1; cases h1 with | halt h => exact .halt h
+  | halt r o s' => rw [hm] at h1; cases h1 with | halt h hr => exact .halt h hr
   | fault f => exact .fault
 
 theorem sk_pure {fl : Bool} {s0 s : IState} {α} {a : α} {Q : α → IState → Prop} (h : KeptB fl s0 s) (hq : Q a s) :
@@ -46,7 +52,7 @@ theorem sk_mono {fl : Bool} {s0 : IState} {α} {e : Exec α} {Q Q' : α → ISta
     (hq : ∀ a s, KeptB fl s0 s → Q a s → Q' a s) : SKeep fl s0 Q' e := by
   cases h with
   | ok h hq' => exact .ok h (hq _ _ h hq')
-  | halt h => exact .halt h
+  | halt h hr => exact .halt h hr
   | fault => exact .fault
 
 /-! ## primitives -/
@@ -54,10 +60,10 @@ theorem sk_mono {fl : Bool} {s0 : IState} {α} {e : Exec α} {Q Q' : α → ISta
 section prims
 variable {fl : Bool} {s0 s : IState}
 
-theorem sk_haltWith {α} {fl' : Bool} (h : KeptB fl s0 s) (r : IResult) {Q : α → IState → Prop} :
-    SKeep fl' s0 Q ((haltWith r : M α) s) := .halt h
-theorem sk_haltOut {α} {fl' : Bool} (h : KeptB fl s0 s) (r : IResult) (o : List Nat) {Q : α → IState → Prop} :
-    SKeep fl' s0 Q ((haltOut r o : M α) s) := .halt h
+theorem sk_haltWith {α} {fl' : Bool} (h : KeptB fl s0 s) (r : IResult) (hr : RGood r) {Q : α → IState → Prop} :
+    SKeep fl' s0 Q ((haltWith r : M α) s) := .halt h hr
+theorem sk_haltOut {α} {fl' : Bool} (h : KeptB fl s0 s) (r : IResult) (o : List Nat) (hr : RGood r)
+    {Q : α → IState → Prop} : SKeep fl' s0 Q ((haltOut r o : M α) s) := .halt h hr
 theorem sk_faultWith {α} {fl' : Bool} (f : Fault) {Q : α → IState → Prop} : SKeep fl' s0 Q ((faultWith f : M α) s) :=
   .fault
 
@@ -69,27 +75,26 @@ theorem sk_modifyS (h : KeptB fl s0 s) (f : IState → IState) (hf : Kept s (f s
 theorem sk_check (h : KeptB fl s0 s) (fork : Nat) : SKeep fl s0 T (check fork s) := by
   unfold check; split
   · exact .ok h trivial
-  · exact .halt h
+  · exact .halt h (by decide)
 
 theorem sk_requireNonStatic (h : KeptB fl s0 s) : SKeep fl s0 T (requireNonStatic s) := by
   unfold requireNonStatic; split
-  · exact .halt h
+  · exact .halt h (by decide)
   · exact .ok h trivial
 
 theorem sk_requireEof (h : KeptB fl s0 s) : SKeep fl s0 T (requireEof s) := by
   unfold requireEof; split
-  · exact .halt h
+  · exact .halt h (by decide)
   · exact .ok h trivial
 
 theorem sk_requireInitEof (h : KeptB fl s0 s) : SKeep fl s0 T (requireInitEof s) := by
   unfold requireInitEof; split
-  · exact .halt h
+  · exact .halt h (by decide)
   · exact .ok h trivial
 
-theorem sk_requireSome (h : KeptB fl s0 s) (r : HostResp) : SKeep fl s0 T (requireSome r s) := by
-  unfold requireSome; split
-  · exact .ok h trivial
-  · exact .halt h
+theorem sk_requireSome (h : KeptB fl s0 s) (r : HostResp) (hok : r.ok = true) : SKeep fl s0 T (requireSome r s) := by
+  unfold requireSome; rw [if_pos hok]
+  exact .ok h trivial
 
 theorem sk_assumeNotEof (h : KeptB fl s0 s) : SKeep fl s0 T (assumeNotEof s) := by
   unfold assumeNotEof; split
@@ -106,7 +111,7 @@ theorem sk_gasCharge (h : KeptB fl s0 s) (c : Nat) :
   obtain ⟨h1, h2, h3⟩ := hsp g' ok rfl
   cases ok with
   | true => exact .ok (h.trans ⟨rfl, h1, h2⟩) (h3 rfl)
-  | false => exact .halt h
+  | false => exact .halt h (by decide)
 
 /-- `gas!` of a cost of at least 1: the flag is set -/
 theorem sk_gasCharge1 (h : KeptB fl s0 s) (c : Nat) (hc : 1 ≤ c) :
@@ -120,7 +125,7 @@ theorem sk_gasCharge1 (h : KeptB fl s0 s) (c : Nat) (hc : 1 ≤ c) :
   | true =>
     have h4 : g'.remaining + 1 ≤ s.gas.remaining := by have := h3 rfl; omega
     exact .ok (h.charge ⟨rfl, h1, h2⟩ h4) (h3 rfl)
-  | false => exact .halt h
+  | false => exact .halt h (by decide)
 
 end prims
 end Revm.Proofs.EvmLink
